@@ -357,7 +357,7 @@ def from_tree(td, t, ty):
         return s
     if b in ("Complex", "Complex64"):
         return Agg("Complex", None, [float(t[1][0]), float(t[1][1])])
-    if b in td.enums and b not in ("Option", "Result"):
+    if b in td.enums and b not in ("Option", "Result") and not (b in td.structs and isinstance(t, tuple) and (b, t[0]) not in td.variants):
         vn = t[0]
         kind, names, types = td.variants[(b, vn)]
         return Agg(b, td.enums[b].index(vn), [from_tree(td, x, p) for x, p in zip(t[1], types)])
